@@ -738,7 +738,7 @@ pub fn signed_bitmessage_to_buf(
 ) -> ProtoResult<(Vec<u8>, Box<Record<TSIG>>)> {
     let mut decoder = BinDecoder::new(message);
     let Header {
-        mut metadata,
+        metadata,
         mut counts,
     } = Header::read(&mut decoder)?;
 
@@ -792,8 +792,13 @@ pub fn signed_bitmessage_to_buf(
         return Err(ProtoError::from("TSIG signature record not found"));
     };
 
+    // "CLASS: This MUST be ANY. TTL: This MUST be 0." (RFC 8945 section 4.2). Both fields are
+    // digested as constants below, so anything else must be rejected here.
+    if tsig_rr.dns_class != DNSClass::ANY || tsig_rr.ttl != 0 {
+        return Err(ProtoError::from("TSIG record must have class ANY and TTL 0"));
+    }
+
     let tsig = &tsig_rr.data;
-    metadata.id = tsig.oid;
 
     // Construct the TBS data.
     let mut buf = Vec::with_capacity(message.len());
@@ -805,8 +810,14 @@ pub fn signed_bitmessage_to_buf(
         encoder.emit_slice(previous_hash)?;
     }
 
-    // Emit the header we modified to remove the TSIG additional record.
-    Header { metadata, counts }.emit(&mut encoder)?;
+    // Emit the header as it was received (RFC 8945 section 4.3.2: "the whole DNS message in
+    // wire format"), with the ID replaced by the original ID and ARCOUNT decremented. Re-encoding
+    // the parsed header would drop the bits that `Metadata` does not represent.
+    let mut header = [0u8; 12];
+    header.copy_from_slice(&message[..12]);
+    header[..2].copy_from_slice(&tsig.oid.to_be_bytes());
+    header[10..].copy_from_slice(&counts.additionals.to_be_bytes());
+    encoder.emit_slice(&header)?;
 
     // Emit all the message data between the header and the TSIG record.
     encoder.emit_slice(&message[start_data..end_data])?;
